@@ -96,7 +96,10 @@ def expected_paths_with_hops(g, a, z, hops):
     return plain, strict
 
 
-def install(imps, store, g, rng, ndecoy):
+STITCHED = [0]
+
+
+def install(imps, store, g, rng, ndecoy, stitch=False):
     imp, cls = imps[store]
     imp.delete_all_graphs()
     for d in range(ndecoy):
@@ -107,11 +110,27 @@ def install(imps, store, g, rng, ndecoy):
         for a, b in itertools.combinations(ids, 2):
             if rng.random() < 0.6:
                 dedges[frozenset([a, b])] = rng.choice(['has', 'connects', 'depends'])
+        if d == 0:
+            dedges0 = dedges
         imp.storage.add_graph(f'decoy{d}', rawgraph.to_nx(G(ids, dcls, dedges).desc(), key_style=rng.randrange(3)))
     imp.storage.add_graph('target', rawgraph.to_nx(g.desc(), key_style=rng.randrange(3)))
     if ndecoy:
         imp.storage.add_graph('decoy-after', rawgraph.to_nx(G(g.ids, g.cls, {}).desc(), key_style=0))
-    return cls(graph_id='target', importer=imp)
+    pg = cls(graph_id='target', importer=imp)
+    if ndecoy and stitch and g.ids:
+        # stitch the target to a decoy the public way: merge_nodes() on a shared NodeID re-points the decoy's edges onto
+        # the target's node, so edges now cross between two graphs of the store (the state the combined-model merge is
+        # in between merge_nodes and the re-homing).  The target's own nodes and edges are untouched, so the oracle holds.
+        other = cls(graph_id='decoy0', importer=imp)
+        done = []
+        for x in rng.sample(g.ids, min(len(g.ids), rng.randrange(1, 3))):
+            # two stitched nodes that are adjacent in the decoy would legitimately gain an edge inside the target
+            if any(frozenset([x, y]) in dedges0 for y in done):
+                continue
+            pg.merge_nodes(node_id=x, other_graph=other)
+            done.append(x)
+        STITCHED[0] += 1 if done else 0
+    return pg
 
 
 def call(fn, **kw):
@@ -321,7 +340,7 @@ def run(ctx):
                 edges[frozenset([a, b])] = rng.choice(r3)
         g = G(ids, cls, edges)
         store = 'shared' if i % 2 == 0 else 'disjoint'
-        pg = install(imps, store, g, rng, rng.randrange(1, 3) if store == 'shared' else 0)
+        pg = install(imps, store, g, rng, rng.randrange(1, 3) if store == 'shared' else 0, stitch=(i % 4 == 0))
         ctx.count('graphs:random')
         ctx.count('store:' + store)
         check_graph(ctx, store, pg, g, r3, cl, sample_q=0.12, rng=rng)
@@ -337,7 +356,7 @@ def run(ctx):
             if idx % ctx.nshards != ctx.shard or (idx // ctx.nshards) % stride:
                 continue
             store = 'shared' if (idx // ctx.nshards) % 2 == 0 else 'disjoint'
-            pg = install(imps, store, g, rng, 1 if store == 'shared' else 0)
+            pg = install(imps, store, g, rng, 1 if store == 'shared' else 0, stitch=((idx // ctx.nshards) % 4 == 0))
             ctx.count('graphs:exhaustive')
             ctx.count(f'graphs:exhaustive-n{n}')
             ctx.count('store:' + store)
@@ -345,6 +364,7 @@ def run(ctx):
             if ctx.out_of_time():
                 ctx.info['exhaustive_cut_short_by_time_budget'] = 1
                 break
+    ctx.count('graphs:stitched-to-a-decoy(cross-graph edges present)', STITCHED[0])
     for imp, _ in imps.values():
         imp.delete_all_graphs()
 
@@ -356,9 +376,10 @@ def replay(ctx, case):
     g = G(gd['ids'], gd['cls'], {frozenset(e[:2]): e[2] for e in gd['edges']})
     rels = sorted(set(g.edges.values()) | {'has', 'connects'})
     classes = sorted(set(g.cls.values()))
-    pg = install(imps, w['store'], g, ctx.rng, 1)
-    check_graph(ctx, w['store'], pg, g, rels, classes)
-    check_helpers(ctx, w['store'], pg, g)
+    for stitch in (False, True):
+        pg = install(imps, w['store'], g, ctx.rng, 1 if w['store'] == 'shared' else 0, stitch=stitch)
+        check_graph(ctx, w['store'], pg, g, rels, classes)
+        check_helpers(ctx, w['store'], pg, g)
 
 
 LEVEL_TEXT = ('Runtime monitoring against an independent oracle: each neighbour / two-hop / shortest-path / path-with-hops query '
